@@ -36,7 +36,7 @@ def stats_of_bundle(b, res):
     return n_stmts
 
 
-def run_bundles(st, res, bundles, pid, what="component", check_model=True, fmt="pil"):
+def run_bundles(st, res, bundles, pid, what="component", check_model=True, fmt="pil", must_accept=False):
     """bundles: list of (tag, Bundle). Appends violations / correspondence breaks to res."""
     drv = core.Driver() if st.driver_ok else None
     reqs, meta = [], []
@@ -54,11 +54,13 @@ def run_bundles(st, res, bundles, pid, what="component", check_model=True, fmt="
             continue
         reqs.append(progen.compile_request(b, fmt, anon=r["anon_before"]))
         meta.append(("compile", tag, b, r, inp))
-        if r["ok"] and fmt == "pil":
+        if (r["ok"] or must_accept) and fmt == "pil":
             rq = progen.compile_request(b, fmt, anon=0)
             rq["op"] = "src-denote"
             reqs.append(rq)
             meta.append(("src", tag, b, r, inp))
+            if not r["ok"]:
+                continue
             try:
                 stmts = pilio.read_pil(r["text"])
             except pilio.PilSyntax as e:
@@ -86,6 +88,11 @@ def run_bundles(st, res, bundles, pid, what="component", check_model=True, fmt="
                 res.corr_breaks.append({"name": "Comp/Sys.compile(accept)", "input": extra, "model": "accepts", "impl": r.get("exc")})
         elif kind == "src":
             src_d[tag] = g
+            if must_accept and not r["ok"] and "ok" in g:
+                res.violations.append({"what": "the compiler rejects a program that is well formed according to the specification "
+                                               "(imports resolve, ports and lengths match): %s %s" % (r.get("exc"), r.get("stderr", "")[-300:]),
+                                       "input": extra, "sig": pid + ":rejects-wellformed",
+                                       "cmd": "cd <dir with these files>; pepper-compiler %s %s" % (b.entry, " ".join("-I " + i for i in b.includes))})
         elif kind == "pil":
             inp, stmts = extra
             sd = src_d.get(tag)
